@@ -60,6 +60,71 @@ static int drv_split(char * line, char ** tok, int max)
 	return n;
 }
 
+/* ---- the driver as an UNCOOPERATIVE caller ------------------------------------------------
+ * Memory handed to a library call belongs to the caller again as soon as the documented
+ * contract says so (for most calls: when the call returns).  The drivers then overwrite it
+ * (and free it, so that ASan poisons it): a library that kept a pointer where its contract
+ * says "copied" reads junk or faults.  Output buffers are pre-filled with a non-constant,
+ * non-zero pattern, so that an unwritten byte is neither 0x00 nor one repeated value.
+ * Perturbations that are applied to only some cases are chosen by drv_case_hash of the case
+ * TEXT (computed before the line is split), never by line number, so a replayed case behaves
+ * the same. */
+#define DRV_SCRIBBLE 0xd7
+static inline void drv_scribble(void * p, size_t n)
+{
+	if (p != NULL && n > 0) memset(p, DRV_SCRIBBLE, n);
+}
+/* overwrite a NUL-terminated string INCLUDING its terminator (a later strlen runs off the block) */
+static inline void drv_scribble_str(char * s)
+{
+	if (s != NULL) drv_scribble(s, strlen(s) + 1);
+}
+static inline void drv_scribble_free(void * p, size_t n)
+{
+	drv_scribble(p, n);
+	free(p);
+}
+static inline void drv_junk(void * p, size_t n)
+{
+	uint8_t * b = p; size_t i;
+	for (i = 0; i < n; i++) b[i] = (uint8_t)(0xa5 ^ (i * 37u) ^ (i >> 8));
+}
+/* exact-size output block, pre-filled with the junk pattern */
+static inline void * drv_outbuf(size_t n)
+{
+	void * p = malloc(n ? n : 1);
+	if (p != NULL) drv_junk(p, n);
+	return p;
+}
+/* A caller that re-uses its buffers: the same address and length with OTHER contents is handed to
+ * a stateless one-shot function first (result discarded), then the real contents are put back and
+ * the real call is made.  Anything the library remembered about "this buffer" is stale by then.
+ * drv_flip is its own inverse. */
+static inline void drv_flip(void * p, size_t n)
+{
+	uint8_t * b = p; size_t i;
+	for (i = 0; i < n; i++) b[i] ^= 0xff;
+}
+/* an input the library takes as `const`: after the call it must still hold what was passed in */
+static inline uint8_t * drv_input_copy(const void * in, size_t len)
+{
+	uint8_t * c = malloc(len ? len : 1);
+	if (c != NULL && len > 0) memcpy(c, in, len);
+	return c;
+}
+static inline void drv_input_check(uint8_t * copy, const void * in, size_t len, const char * msg)
+{
+	if (copy != NULL && len > 0 && memcmp(copy, in, len) != 0) fputs(msg, stdout);
+	free(copy);
+}
+/* FNV-1a of the case text */
+static inline uint32_t drv_case_hash(const char * s)
+{
+	uint32_t h = 2166136261u;
+	for (; *s; s++) { h ^= (unsigned char)*s; h *= 16777619u; }
+	return h;
+}
+
 /* Called by a driver in the child process it forks for ONE case: a case needs milliseconds of
  * processor time, so a child that has burnt DRV_CASE_CPU_S seconds of it is looping (a completion
  * that never comes, an event loop spinning on a stale readiness bit).  The kernel then ends it
